@@ -92,6 +92,9 @@ func corpus(w *lib.Writer) {
 		runApi(w, ApiIn{Kind: "api", Depth: d, Locals: []int{100, 100, 100, 100, 100}, Init: []int{1}, Reg: RegOpt{Size: 128, Max: 1024, Grow: 1}, Ops: []AOp{
 			{K: "push", V: 2}, {K: "push", V: 3}, {K: "settop", I: 30}, {K: "insert", I: 1, V: 4}, {K: "remove", I: 2}, {K: "settop", I: 1}, {K: "gettop"}}}, "corpus/grow")
 	}
+	// C10-2 (open finding): ObjLen of a userdata without __len; and Concat() without operands (fixed b70edf8)
+	runObj(w, ObjIn{Kind: "obj", Op: "objlen", A: Operand{"newud(MT2)"}, B: Operand{"nil"}, K: Operand{"nil"}, V: Operand{"nil"}, MT1: 64, MT2: 1, Same: true}, "corpus/C10-2")
+	runObj(w, ObjIn{Kind: "obj", Op: "concat0", A: Operand{"nil"}, B: Operand{"nil"}, K: Operand{"nil"}, V: Operand{"nil"}, Same: true}, "corpus/concat0")
 	// seeded C10-4: the __call handler of a callable table / userdata must receive the object itself
 	for _, via := range []string{"callbyparam", "call", "pcall"} {
 		for _, callee := range []string{"callable-table", "callable-userdata"} {
